@@ -384,8 +384,24 @@ impl ProcfsHandle {
         // NOTE: There is technically a race here, but it relies the target path
         //       being a magic-link and then another thing being mounted on top.
         //       This is the same race as below.
-        if self.readlink(base, subpath).is_err() {
-            return self.open(base, subpath, oflags).map(File::from);
+        match self.readlink(base, subpath) {
+            // The target is a symlink, so we need to follow it ourselves below.
+            Ok(_) => (),
+            Err(err) => match err.kind().errno() {
+                // readlink(2) cannot give us the link target because it is too
+                // long, but the target is a symlink nevertheless.
+                Some(libc::ENAMETOOLONG) => (),
+                // The target is not a symlink (readlinkat(fd, "") gives ENOENT
+                // for those) or does not exist -- in both cases the regular
+                // O_NOFOLLOW open gives the right result.
+                Some(libc::ENOENT) | Some(libc::EINVAL) => {
+                    return self.open(base, subpath, oflags).map(File::from);
+                }
+                // Any other error does not tell us that the target is not a
+                // symlink. We must not fall back to the O_NOFOLLOW open in that
+                // case, because it would open the (magic-)link itself.
+                _ => return Err(err),
+            },
         }
 
         // Get a no-follow handle to the parent of the magic-link.
